@@ -28,6 +28,19 @@ def view(resp):
     return (True, dt, xmlcmp.norm_stream(ev, False, False, False, drop_xmlns=False))
 
 
+def squash(events):
+    """Event list with space and line feed deleted from character data (empty items dropped): `sqL`."""
+    out = []
+    for e in events.split(','):
+        if e.startswith('C:'):
+            t = xmlcmp.unhx(e[2:]).replace(b' ', b'').replace(b'\n', b'')
+            if t:
+                out.append('C:' + t.hex())
+        else:
+            out.append(e)
+    return out
+
+
 def outside_subset(doc):
     """None, or the construct on which the two readers legitimately differ (the specification is restricted
     to what the printer can emit; see DESIGN_NOTES/C05_xmlspec.md): processing instructions and comments, an
